@@ -3,6 +3,7 @@ pub mod crash;
 pub mod gsom;
 pub mod lkh;
 pub mod pop;
+pub mod relgen;
 pub mod restart;
 pub mod rl;
 pub mod structs;
